@@ -1,7 +1,7 @@
 SPECIFICATION Spec
 CONSTANTS
-  KINDS = {"netlist", "die", "alloc", "stog", "encode", "legal", "strop"}
-  PROBES = {"netlist", "die", "alloc", "stog", "encode", "legal", "strop"}
+  KINDS = {"netlist", "die", "alloc", "stog", "encode", "legal", "strop", "undef"}
+  PROBES = {"netlist", "die", "alloc", "stog", "encode", "legal", "strop", "sliver"}
   SCALES = {0, 2, 4}
   MID = 2
   BAND = 2
